@@ -292,7 +292,11 @@ def parse_enum(enum_type: type[E]) -> Callable[[str], E]:
     # "(...).parse_enum.<locals>._parse_enum" or something.
     @functools.wraps(enum_type)
     def _parse_enum(v: str) -> E:
-        return enum_type[v]
+        try:
+            return enum_type[v]
+        except KeyError:
+            # argparse only turns ValueError / TypeError / ArgumentTypeError into a usage error.
+            raise ValueError(f"{v!r} is not a member of {enum_type.__name__}") from None
 
     _parsing_fns[enum_type] = _parse_enum
     return _parse_enum
